@@ -173,3 +173,40 @@ Proof.
     cbn [xorb];
     (split; [intros H; try discriminate; repeat split; lra | intros [[H1 H2] [H3 H4]]; try reflexivity; exfalso; lra]).
 Qed.
+
+(* ---- cutting an ear off: the crossing test of a polygon is the crossing test of the triangle (a, b, c) combined by
+   parity with that of the polygon without b - for EVERY vertex list; by induction the mask of any polygon is the
+   parity of the triangles of a fan (what a triangulation-based mask computes) -------------------------------------- *)
+Lemma crosses_degenerate p a : crosses p (a, a) = false.
+Proof. destruct p as [px py], a as [x y]. unfold crosses. rewrite eqb_reflx. reflexivity. Qed.
+
+Lemma pip_ear p a b c rest :
+  point_in_polygon p (a :: b :: c :: rest) = xorb (point_in_polygon p [a; b; c]) (point_in_polygon p (a :: c :: rest)).
+Proof.
+  unfold point_in_polygon. rewrite !edges_cons. cbn [app path_edges].
+  change (match rest ++ [a] with [] => [] | b0 :: _ => (c, b0) :: path_edges (rest ++ [a]) end) with (path_edges (c :: rest ++ [a])).
+  unfold parity. cbn [map fold_right]. rewrite xorb_false_r.
+  pose proof (crosses_swap p (a, c)) as S. unfold swap in S. cbn [fst snd] in S. rewrite S.
+  set (T := fold_right xorb false (map (crosses p) (path_edges (c :: rest ++ [a])))).
+  destruct (crosses p (a, b)), (crosses p (b, c)), (crosses p (a, c)), T; reflexivity.
+Qed.
+
+Lemma pip_two p a b : point_in_polygon p [a; b] = false.
+Proof.
+  unfold point_in_polygon, edges, parity. cbn [app path_edges map fold_right].
+  pose proof (crosses_swap p (a, b)) as S. unfold swap in S. cbn [fst snd] in S. rewrite S.
+  destruct (crosses p (a, b)); reflexivity.
+Qed.
+Lemma pip_one p a : point_in_polygon p [a] = false.
+Proof. unfold point_in_polygon, edges, parity. cbn [app path_edges map fold_right]. rewrite crosses_degenerate. reflexivity. Qed.
+
+Lemma pip_fan p a l : point_in_polygon p (a :: l) = fan_parity p a l.
+Proof.
+  induction l as [| b t IH]; [apply pip_one |].
+  destruct t as [| c rest]; [apply pip_two |].
+  rewrite pip_ear. cbn [fan_parity]. f_equal.
+  (* the polygon without b: its fan starts at c *)
+  clear IH. revert b c. induction rest as [| d rest IH2]; intros b c.
+  - cbn [fan_parity]. apply pip_two.
+  - rewrite pip_ear. cbn [fan_parity]. f_equal. apply (IH2 c d).
+Qed.
